@@ -110,7 +110,9 @@ def cover_inputs(case, rng, n, maxlen=24):
     out = out[:max(n // 2, 1)]
     while len(out) < n:
         k = rng.random()
-        if paths and k < 0.5:
+        if k > 0.7:
+            out.append(scanner.P.sample_input(case.src, rng, alpha, maxlen)); continue
+        if paths and k < 0.4:
             s = b"".join(rng.choice(paths) + bytes([rng.choice(alpha)]) for _ in range(rng.randint(1, 3)))
         else:
             s = bytes(rng.choice(alpha) for _ in range(rng.randint(0, 14)))
@@ -423,3 +425,34 @@ def _validate_list(run, tovalidate, live, casefile, wd, name, chunk=600):
                 nxt.append((cp2, rest))
         pending = nxt
     return nacc
+
+
+def model_unit(run, invariants=(), properties=(), tag="model"):
+    """TLC on the abstract run-time machine itself (spec/MC_Scanner.tla): every input of length <= InLen over
+    {a, b, newline}, every read schedule, every history of at most MaxOps edit/start-condition/buffer calls.
+    A violation here is a defect of the specification (the code is bound to it by trace validation), so it is
+    reported as an infrastructure error, never as a violation of the property by flex."""
+    q = run.tier == "quick"
+    inlen, maxops = (2, 2) if q else (3, 3)
+    cfg = os.path.join(run.work, "MC_Scanner_%s.cfg" % tag)
+    with open(cfg, "w") as f:
+        f.write("SPECIFICATION MSpec\nCONSTANT RSets <- RSetsDef\nCONSTANTS InLen = %d\n MaxOps = %d\nVIEW MView\n" % (inlen, maxops))
+        for i in invariants: f.write("INVARIANT %s\n" % i)
+        for p in properties: f.write("PROPERTY %s\n" % p)
+        f.write("CHECK_DEADLOCK FALSE\n")
+    r = tlc.run("MC_Scanner", cfg=cfg, workers=4 if q else 12, timeout=600 if q else 3600, heap="8g")
+    run.add_tlc(r)
+    run.unit(tag, module="MC_Scanner", InLen=inlen, MaxOps=maxops, invariants=list(invariants), properties=list(properties),
+             distinct=r.distinct, generated=r.generated, depth=r.depth, wall=round(r.wall, 1))
+    if r.violated:
+        run.error("MC_Scanner: %s is violated by the specification itself (InLen=%d, MaxOps=%d)" % (r.violated, inlen, maxops))
+    elif not r.ok:
+        run.error("MC_Scanner failed: %s" % ((r.error or r.out[-400:]) if not r.timed_out else "timeout"))
+    return r
+
+
+_pool = cf.ThreadPoolExecutor(max_workers=2)
+
+
+def model_async(run, invariants=(), properties=(), tag="model"):
+    return _pool.submit(model_unit, run, invariants, properties, tag)
